@@ -8,6 +8,11 @@ from r_guards import short_fn
 from r_ef import make_inliner, struct_literal_fields
 from sym import *  # noqa
 from sym import _is_one
+
+
+def _width_mask_of(t):
+    from r_guards import width_mask_of
+    return width_mask_of(t)
 from ir import *  # noqa
 
 VEC_ADTS = ("bits::bit_vec::BitVec", "bits::bit_vec::AtomicBitVec", "bits::bit_field_vec::BitFieldVec", "bits::bit_field_vec::AtomicBitFieldVec")
@@ -561,7 +566,7 @@ def r11_4(ctx, rr):
         sc = ["C11", "C05", "C10", "C12"] + (["C13"] if "Atomic" in b.key else [])
         rr.check(ok, "%s:words" % short_fn(b.key), "%s must allocate %sceil(len*bit_width/BITS)%s words; found %s" % (b.key, "max(1, " if mx else "", (" + %d" % pad) if pad else "", tshow(bits)[:200]), b.span, props=sc)
         rr.instances += 1
-        rr.check(L.get("len") == ("var", "len") and L.get("bit_width") == ("var", "bit_width") and L.get("mask") == ("call", "bit_field_vec::mask", (("var", "bit_width"),)),
+        rr.check(L.get("len") == ("var", "len") and L.get("bit_width") == ("var", "bit_width") and (L.get("mask") == ("call", "bit_field_vec::mask", (("var", "bit_width"),)) or _width_mask_of(L.get("mask", ("unk", "?"))) == ("var", "bit_width")),
                  "%s:fields" % short_fn(b.key), "%s must store len, bit_width and mask(bit_width)" % b.key, b.span)
     # mask(bit_width) helper
     mb = F.one(r"^bits::bit_field_vec::mask$")
